@@ -232,7 +232,7 @@ PLANS = {
     'C12': {
         'mc': [{'module': 'MC_C12', 'what': 'all objects of <= 3 (thorough 4) members from 11 member kinds in every order x 8 rules x 5 limits: Ref is order independent; the key-loop model (Impl) refines Ref; limit rule',
                 'tiers': {'quick': {'env': {'MC_MEMBERS': '3'}}, 'thorough': {'env': {'MC_MEMBERS': '4'}}}}],
-        'drivers': [{'name': 'c12', 'shards': 8, 'per': 6000}],
+        'drivers': [{'name': 'c12', 'shards': 8, 'per': 6000, 'tiers': {'thorough': {'per': 40000}}}],
         'codes': ['C12.'],
         'rule': 'size.parse (JSON mode) on generated documents: scalars, strings with escapes, every sequence of <= 2 members and ~19x19x28x2 sequences of 3 members, random longer objects, '
                 'whitespace styles, every truncation and 16 trailing byte strings of 6 documents, member counts around MaxObjectKeys with value/unit first, last, middle; x 12 JSON rule subsets x MaxObjectKeys in {0,1,2,3,16}; '
